@@ -37,19 +37,20 @@ func (a av) String() string {
 }
 
 type cmpAbs struct {
-	p          *Prog
-	fn         *ssa.Function
-	symRng     map[string][2]*big.Int
-	nsym       int
-	A, B       ssa.Value // not used as values; loads are recognised structurally
-	idx        *ssa.Phi
-	pa, pb, pl *ssa.Parameter
-	notes      []string
-	tuples     map[ssa.Value][]av
-	header     *ssa.BasicBlock
-	statePhis  []*ssa.Phi
-	loadOf     map[*ssa.IndexAddr]*ssa.Parameter
-	preset     map[*ssa.Call][]av // results of the call to the helper that holds the loop (per order state)
+	p           *Prog
+	fn          *ssa.Function
+	symRng      map[string][2]*big.Int
+	nsym        int
+	A, B        ssa.Value // not used as values; loads are recognised structurally
+	idx         *ssa.Phi
+	pa, pb, pl  *ssa.Parameter
+	notes       []string
+	tuples      map[ssa.Value][]av
+	header      *ssa.BasicBlock
+	statePhis   []*ssa.Phi
+	loadOf      map[*ssa.IndexAddr]*ssa.Parameter
+	preset      map[*ssa.Call][]av // results of the call to the helper that holds the loop (per order state)
+	inlineDepth int
 }
 
 func bi(x int64) *big.Int { return big.NewInt(x) }
@@ -641,6 +642,30 @@ func (c *cmpAbs) call(x *ssa.Call, env map[ssa.Value]av) av {
 	}
 	path := cal.Pkg.Pkg.Path()
 	name := cal.Name()
+	// a small straight-line helper of the repository (below(x, y) = (x-y)>>31, ...) is evaluated in place
+	if isRepoFunc(cal) && len(cal.Blocks) == 1 && len(cal.Params) == len(args) && cal.Signature.Results().Len() == 1 && c.inlineDepth < 3 {
+		c.inlineDepth++
+		sub := map[ssa.Value]av{}
+		for i, prm := range cal.Params {
+			sub[prm] = args[i]
+		}
+		var res av
+		ok := false
+		for _, in := range cal.Blocks[0].Instrs {
+			switch y := in.(type) {
+			case *ssa.Return:
+				if len(y.Results) == 1 {
+					res, ok = c.eval(y.Results[0], sub), true
+				}
+			default:
+				c.step(in, sub, "")
+			}
+		}
+		c.inlineDepth--
+		if ok && res.lo != nil {
+			return res
+		}
+	}
 	switch {
 	case path == "math/bits" && (name == "Sub32" || name == "Sub64" || name == "Sub"):
 		w := 64
@@ -1051,6 +1076,28 @@ func analyzeCmp(r *Report, p *Prog, fn *ssa.Function, key string) {
 			switch x := in.(type) {
 			case *ssa.IndexAddr:
 				if x.X == ssa.Value(c.pa) || x.X == ssa.Value(c.pb) {
+					// a read whose value nobody uses (_ = a[l-1]: a bounds probe) cannot influence the result
+					unused := true
+					if x.Referrers() != nil {
+						for _, ref := range *x.Referrers() {
+							switch y := ref.(type) {
+							case *ssa.DebugRef:
+							case *ssa.UnOp:
+								if y.Referrers() != nil {
+									for _, r2 := range *y.Referrers() {
+										if _, isDbg := r2.(*ssa.DebugRef); !isDbg {
+											unused = false
+										}
+									}
+								}
+							default:
+								unused = false
+							}
+						}
+					}
+					if unused {
+						continue
+					}
 					if !inLoop[b] {
 						bad = append(bad, "byte read outside the loop at "+p.InstrPos(x))
 					}
